@@ -1,8 +1,30 @@
 (* C15 — The layout saved for the systemd service reloads as the same layout.
    Statements only; proofs are in TM.KeyNames (finite facts, vm_compute over
    the regenerated key table) and TM.RoundtripLemmas. *)
-From TM Require Import Base Json RustOps Mapper Parser Convert Serde LoaderCheck StrLemmas KeyNames.
+From TM Require Import Base Json RustOps Mapper Parser Convert Serde LoaderCheck StrLemmas KeyNames RoundtripLemmas.
 From TMGen Require Import KeyTable.
+
+(* Writing a basic layout in the derive(Serialize) form and loading that value
+   the way the service does (parse_layout_from_json, then convert) yields
+   exactly the same layout: same mappings in the same order, same triggers,
+   outputs, repeat settings and absorbing lists.  For EVERY basic layout L with
+   wf_basic L (LoaderCheck.v): every trigger non-empty, no key twice in one
+   trigger or one output, every key a key code of the tool's table (known_key:
+   serde has a name for it), Special delays/intervals in the i32 range, and
+   absorbing keys among the trigger's modifiers — any length, any repeat
+   (Special with empty or multi-key chords), empty outputs included.
+   C15_loaded_is_wf_basic below shows that every layout the loader returns
+   satisfies wf_basic, so "every layout the converter can produce" is covered. *)
+Theorem C15_roundtrip : forall L : layout, wf_basic L = true -> load (to_json L) = Ok L.
+Proof. exact roundtrip. Qed.
+Print Assumptions C15_roundtrip.
+
+Example C15_roundtrip_example :
+  let L := [ mkMapping [58; 30]%N [] (RSpecial [] (-5) 2147483647) [58]%N;
+             mkMapping [42; 56; 16]%N [29; 42; 2]%N (RSpecial [42; 3]%N 180 30) [56; 42]%N;
+             mkMapping [1]%N [1]%N RDisabled [] ] in
+  wf_basic L = true /\ load (to_json L) = Ok L.
+Proof. vm_compute. split; reflexivity. Qed.
 
 (* Every key name the tool can write is read back as the same key, for all key
    codes of the regenerated table (484 at the pinned commit): the serde name
